@@ -250,7 +250,7 @@ def cfg_label(c):
     return f"{c[0]}_{c[1]}" + ("_" + hashlib.sha256(" ".join(c[2]).encode()).hexdigest()[:6] if c[2] else "")
 
 
-def run_proc(cmd, infile, outfile, env=None, timeout=3600):
+def run_proc(cmd, infile, outfile, env=None, timeout=int(os.environ.get("VERIF_SHARD_TIMEOUT", "900"))):
     with open(infile, "rb") as fi, open(outfile, "wb") as fo, open(outfile + ".err", "wb") as fe:
         try:
             p = subprocess.run(cmd, stdin=fi, stdout=fo, stderr=fe, env=env, timeout=timeout)
@@ -309,7 +309,7 @@ class Run:
                     env.setdefault("UBSAN_OPTIONS", "print_stacktrace=1")
                 jobs.append(("impl", cfg, si, [exe], inf, os.path.join(self.tmp, f"{label}.{si}.{cfg_label(cfg)}"), env))
         with cf.ThreadPoolExecutor(max_workers=NPROC) as ex:
-            futs = {ex.submit(run_proc, j[3], j[4], j[5], j[6]): j for j in jobs}
+            futs = {ex.submit(run_proc, j[3], j[4], j[5], j[6], 900 if self.tier == "quick" else 5400): j for j in jobs}
             rcs = {}
             for fu in cf.as_completed(futs):
                 j = futs[fu]
@@ -350,11 +350,12 @@ class Run:
         def one(c):
             data = "".join(ln + "\n" for ln in c["lines"])
             try:
-                p = subprocess.run([exe], input=data.encode(), stdout=subprocess.PIPE, stderr=subprocess.PIPE, env=env, timeout=120)
+                p = subprocess.run([exe], input=data.encode(), stdout=subprocess.PIPE, stderr=subprocess.PIPE, env=env,
+                                   timeout=int(os.environ.get("VERIF_CASE_TIMEOUT", "40")))
                 lines = p.stdout.decode(errors="replace").split("\n")[:-1]
                 rc, err = p.returncode, p.stderr.decode(errors="replace")
             except subprocess.TimeoutExpired:
-                lines, rc, err = [], -999, "timeout"
+                lines, rc, err = [], -999, "timeout: the call did not return (non-termination)"
             if len(lines) != len(c["lines"]) or rc != 0:
                 m = re.search(r"(ERROR: \w+Sanitizer: [^\n]*|runtime error: [^\n]*|SUMMARY: [^\n]*)", err)
                 what = m.group(1) if m else err.strip().split("\n")[-1][:200] if err.strip() else ""
